@@ -1,0 +1,5 @@
+//go:build !verif
+
+package iterator
+
+func simYield(string) {}
